@@ -45,13 +45,17 @@ func (s *c19scripted) Choose(existing hash.Events, options hash.Events) int {
 func runC19(c *ev.Ctx) {
 	c.Rule = "random existing-parent lists (0..5 distinct events), option lists (0..10 entries with duplicates and overlaps with the existing parents), strategy lists of 0..6 strategies mixing MetricStrategy (metric tables with ties, zeros and values >= 2^63), RandomStrategy and a scripted legal strategy; " +
 		"oracle = the clauses of the statement: result starts with the existing parents in order; then at most one new parent per strategy; no parent repeated; every new parent was offered; number of new parents = min(#strategies, #distinct options not already parents); strategies are only ever shown non-empty, duplicate-free options that exclude current parents; a MetricStrategy's pick has the maximal metric among the options it was shown. " +
+		"Plus reuse: one MetricStrategy object serves 2-4 selections in a row while the metric of the same events changes in between; each pick is maximal under the metric at that selection. " +
 		"non-trivial = distinct inputs with >=2 existing parents of which one is also offered as option, >=2 strategies and a metric tie or a metric >= 2^63"
-	c.Assumptions = []string{"existing parents are distinct events (they are parents of one event)", "metric function is deterministic during one call"}
+	c.Assumptions = []string{"existing parents are distinct events (they are parents of one event)", "metric function is deterministic during one ChooseParents call (it may change between calls)"}
 	n := c.Pick(300000, 10000000)
 	c.Parallel(64, 0, func(w int) {
 		r := c.Rand("case", w)
 		for i := 0; i < n/64; i++ {
 			c19Case(c, r, w*1000000+i)
+			if i%8 == 0 {
+				c19Reuse(c, r, w*1000000+i)
+			}
 		}
 	})
 }
